@@ -125,6 +125,20 @@ def replay_case(ctx, sc, k):
         ctx.mismatch('C07:verify:%s:%s:given-as-bytes:model-%s-got-%s' % (cname, tname, verdict, got2),
                      'Key.verify with the key and the signature handed over as bytes: model %s, pytezos %s (%s)\n%s' % (verdict, got2, o2[1:], desc), case)
         ok = False
+    # the same signature bytes relabelled as a signature of another curve: whatever the bytes are, a secp256k1 / P-256 / Ed25519 key does not accept a
+    # signature that says it belongs to another curve, and Key.verify and CHECK_SIGNATURE give one verdict
+    if tk == 'none' and form == 'curve' and curve in ('ed', 'sp', 'p2'):
+        okind = {'ed': 'spsig1', 'sp': 'p2sig', 'p2': 'edsig'}[curve]
+        rsig = b58.check_encode(b58.P[okind], raw)
+        o3 = memo(vcurve, ('verify-relabel', vpk, rsig, vm_in), lambda: kf.outcome(lambda: __import__('pytezos.crypto.key', fromlist=['Key']).Key.from_encoded_key(vpk).verify(rsig, vm_in)))
+        g3 = 'accept' if (o3[0] == 'ret' and o3[1] is True) else 'reject'
+        c3, t3 = memo(vcurve, ('check-relabel', vpk, rsig, vmsg), lambda: kf.check_signature(vpk, rsig, vmsg))
+        if c3.startswith('raises-'):
+            c3 = 'false'
+        if g3 != 'reject' or c3 != 'false':
+            ctx.mismatch('C07:relabelled-signature:%s:%s' % (cname, 'verify-accepts' if g3 != 'reject' else 'check_signature-true'),
+                         'the signature bytes of a %s key presented under the label %s: Key.verify %s, CHECK_SIGNATURE %s (both must refuse)\n%s' % (cname, okind, g3, c3, desc), case)
+            ok = False
     # ---- CHECK_SIGNATURE ----
     c, txt = memo(vcurve, ('check', vpk, vsig, vmsg), lambda: kf.check_signature(vpk, vsig, vmsg))
     if tk == 'offcurve' and c.startswith('raises-'):
